@@ -155,7 +155,8 @@ func runTestFile(fileName string) {
 	}
 
 	report := test.Run()
-	if report == nil || report.Status() != test.TEST_SUCCESS {
+	// a root suite without cases (nothing matched the filters) is reported as skipped: nothing failed
+	if report == nil || (report.Status() != test.TEST_SUCCESS && report.Status() != test.TEST_SKIPPED) {
 		os.Exit(1)
 	}
 }
